@@ -39,11 +39,10 @@ Definition C41_lossless_statement : Prop :=
     the 101st arrives and the packet is never delivered. *)
 Theorem C41_lossless_refuted : ~ C41_lossless_statement.
 Proof.
-  intros H. specialize (H 57 1%N 5%N [big_v4 4101] ltac:(lia) ltac:(lia)).
-  destruct capacity_witness as [V E]. rewrite E in H. cbn [filter] in H. rewrite V in H.
-  assert (L : (N.of_nat (length (frames_of 57 1 5 [big_v4 4101])) <= two64)%N)
-    by (vm_compute; discriminate).
-  specialize (H L). discriminate.
+  intros H. apply capacity_refutes. apply H.
+  - lia.
+  - lia.
+  - apply N.leb_le. apply capacity_witness.
 Qed.
 Print Assumptions C41_lossless_refuted.
 
@@ -62,7 +61,7 @@ Proof. exact lossless_main. Qed.
 Print Assumptions C41_lossless_except_known.
 
 Lemma written_writes ps : written (map EWrite ps) = ps.
-Proof. induction ps as [|p ps IH]; cbn; [reflexivity|now rewrite IH]. Qed.
+Proof. unfold written. induction ps as [|p ps IH]; cbn; [reflexivity|now f_equal]. Qed.
 
 (** ... in particular for a list of valid packets: ingest (frames_of mtu ps) = ps. *)
 Corollary C41_lossless : forall mtu sess stream ps,
@@ -111,14 +110,16 @@ Proof. exact enc_oracle_model. Qed.
 Print Assumptions C41_enc_oracle_holds_on_model.
 
 (** Non-vacuity: two packets spanning several frames of size 57 with an invalid one in
-    between; in order everything arrives, with the second frame lost only the packet that
-    does not touch it arrives, and a duplicated, reversed delivery emits sent packets only. *)
+    between (5 frames); in order everything arrives, with the second frame lost only the
+    packet that does not touch it arrives, reversed and duplicated deliveries emit sent
+    packets only (possibly more than once). *)
 Example C41_example :
   let p1 := big_v4 100 in
   let p2 := [96%N; 0%N; 0%N; 0%N; 0%N; 20%N] ++ repeat 7%N 54 in
   let bad := [69%N; 0%N; 0%N; 99%N] ++ repeat 1%N 26 in
   let fs := frames_of 57 3 9 [p1; bad; p2] in
-  length fs = 4 /\ ingest fs = [p1; p2] /\
+  length fs = 5 /\ ingest fs = [p1; p2] /\
   ingest (nth 0 fs [] :: skipn 2 fs) = [p2] /\
-  ingest (rev fs ++ fs ++ rev fs) = [p1; p2].
+  ingest (rev fs ++ fs ++ rev fs) = [p2] /\
+  ingest (fs ++ fs) = [p1; p2; p1; p2].
 Proof. vm_compute. repeat split. Qed.
